@@ -73,10 +73,51 @@ func (z *Decimal) Sqrt(x *Decimal) *Decimal {
 	// very small precisions (<_DW/2).
 	//
 	// Solve 1/x² - z = 0 instead.
-	z.sqrtInverse(z)
+	//
+	// Newton's iteration delivers an approximation that may be off by a few
+	// units in the last place, which is not enough to round correctly (ties,
+	// directed modes, perfect squares). Compute the root r with one more
+	// digit than requested, truncated, move it to the largest such value
+	// with r² <= z, and let r and the exactness of r² decide the one and
+	// only rounding to prec digits.
+	wp := prec
+	if wp < MaxPrec {
+		wp++
+	}
+	r := new(Decimal).Copy(z)
+	r.prec, r.mode = wp, ToZero
+	r.sqrtInverse(r)
 
-	// restore precision and re-attach halved exponent
-	return z.SetMantExp(z, b/2)
+	// unit in the last place of r (r.exp changes when r crosses a power of ten)
+	ulp := func() *Decimal { return NewDecimal(1, int(r.exp)-int(wp)) }
+	sq := new(Decimal).SetPrec(2 * uint(wp)).SetMode(ToZero) // holds r² exactly
+	t := new(Decimal).SetPrec(uint(wp)).SetMode(ToZero)
+	for sq.Mul(r, r).Cmp(z) > 0 {
+		r.Sub(r, ulp())
+	}
+	for sq.Mul(t.Add(r, ulp()), t).Cmp(z) <= 0 {
+		r.Set(t)
+	}
+	var sbit uint
+	if sq.Mul(r, r).Cmp(z) != 0 {
+		sbit = 1
+	}
+
+	// round must see at least one digit after the last one kept
+	if n := int(prec/_DW) + 2; len(r.mant) < n {
+		z.mant = z.mant.shl(r.mant, uint(n-len(r.mant))*_DW)
+	} else {
+		z.mant = z.mant.set(r.mant)
+	}
+	z.setExpAndRound(int64(r.exp), sbit)
+
+	// re-attach halved exponent (exact: keep the accuracy of the rounding)
+	acc := z.acc
+	z.SetMantExp(z, b/2)
+	if z.acc == Exact {
+		z.acc = acc
+	}
+	return z
 }
 
 // Compute √x (to z.prec precision) by solving
